@@ -718,6 +718,104 @@ def spec_id_rules(repo: Repo, R: Report, run_nf: ast.AST) -> None:
     insp_parsed = bool(insp_vals) and all(
         isinstance(v, ast.Call) and call_attr(v) == "asdict" and len(v.args) == 1 and any(parses_block(o) for o in _origins(csid_nf, v.args[0])) for v in insp_vals)
     R.check(bool(insp_parsed), r_sid, BUILDER, csid_q, "normalises asdict(<run-space block parsed as parse_pipeline_config parses it>)", "inspection hashes a different representation of the run-space block than the runtime (raw mapping vs parsed configuration with defaults): spec ids never agree", csid.lineno)
+    if insp_parsed:
+        insp_parse_calls = [o for v in insp_vals for o in _origins(csid_nf, v.args[0]) if parses_block(o)]
+        parse_agreement_rules(repo, R, ppc, builder_mod, csid, csid_nf, insp_parse_calls)
+
+
+def _diagnostic_only(fn: ast.AST, p: str) -> bool:
+    """Parameter *p* of *fn* is read only where the function reports something (inside `raise ...`, a logger / warnings
+    call): it cannot change the value the function returns."""
+    loads = [x for x in ast.walk(fn) if isinstance(x, ast.Name) and x.id == p and isinstance(x.ctx, ast.Load)]
+    if any(isinstance(x, ast.Name) and x.id == p and isinstance(x.ctx, (ast.Store, ast.Del)) for x in ast.walk(fn)):
+        return False
+
+    def reporting(x: ast.AST) -> bool:
+        for a in ancestors(x):
+            if isinstance(a, ast.Raise):
+                return True
+            if isinstance(a, ast.Call) and (call_name(a) or "").split(".")[0] in ("logger", "logging", "warnings", "log", "_logger", "LOGGER"):
+                return True
+            if isinstance(a, ast.stmt):
+                return False
+        return False
+    return all(reporting(x) for x in loads)
+
+
+def parse_agreement_rules(repo: Repo, R: Report, ppc, builder_mod, csid: ast.AST, csid_nf: ast.AST, insp_calls: List[ast.Call]) -> None:
+    """Both sides hash asdict(<parsed block>): the parsed block is the same only if both sides parse the same way.  The runtime
+    hashes `.run_space` of what parse_pipeline_config returns; what is stored there is followed back to the call of the block
+    parser inside parse_pipeline_config and compared, option by option, with the call inspection makes."""
+    r_pa = R.rule("C09-D1-parse-agreement", "the run-space block is turned into the hashed representation by the same parser call on both paths: the function whose result the configuration parser (parse_pipeline_config, the CLI path) stores as `.run_space` is the function inspection applies, and every parameter of it other than the block itself that can influence the parsed value is bound to the same constant (or left at its default) at both call sites - an option only one side passes (a base directory, a strictness flag, ...) makes `inspect` print another spec id than the trace carries for the blocks the option touches", 1)
+    pmod, pfn = ppc
+    rel_p = pmod.rel
+    pq = qualname_of(pfn)
+    pnf = normalize(repo, pmod, pfn, inline=False)  # helpers kept: the call of the block parser is what is looked for
+    # the object parse_pipeline_config returns, and the constructor argument that ends up in its `.run_space`
+    rets = [r for r in walk_no_nested(pnf) if isinstance(r, ast.Return) and r.value is not None]
+    ctor_calls = [o for r in rets for o in _origins(pnf, r.value) if isinstance(o, ast.Call)]
+    stored_args: List[Tuple[ast.Call, ast.AST]] = []
+    for c in ctor_calls:
+        r = repo.resolve_name(pmod, c.func, c) if isinstance(c.func, (ast.Name, ast.Attribute)) else None
+        if r is None or not isinstance(r[1], ast.ClassDef):
+            continue
+        init = repo.method(r[0], r[1], "__init__")
+        arg: Optional[ast.AST] = None
+        if init is not None and isinstance(init[1], FuncNode):
+            b = _bind_args(init[1], c, skip_first=True)
+            pos = init[1].args.posonlyargs + init[1].args.args
+            if b is None or not pos:
+                raise AnalysisError(f"{pq}: constructor call `{norm(c)[:60]}` cannot be bound to {qualname_of(init[1])}")
+            vals = _object_stores(repo, init[0], init[1], pos[0].arg, r).get("run_space", [])
+            holders = {x.id for v in vals for x in ast.walk(v) if isinstance(x, ast.Name) and x.id in b}
+            if len(holders) != 1:
+                raise AnalysisError(f"{qualname_of(init[1])}: what is stored as `.run_space` is not built from one constructor parameter ({sorted(holders)})")
+            arg = b[next(iter(holders))]
+        else:  # dataclass-style: the field is the keyword
+            arg = kwarg(c, "run_space")
+        if arg is not None:
+            stored_args.append((c, arg))
+    if not stored_args:
+        raise AnalysisError(f"{pq}: the returned configuration object and the value stored as its `.run_space` were not found")
+    rt_calls: List[ast.Call] = []
+    for c, arg in stored_args:
+        outs = [o for o in _origins(pnf, arg) if not _is_none(o)]
+        if not outs or not all(isinstance(o, ast.Call) for o in outs):
+            raise AnalysisError(f"{pq}: `.run_space` of the returned configuration is bound to `{norm(arg)[:60]}`, not to the result of a parser call")
+        rt_calls.extend(outs)
+
+    def target(mod, call: ast.Call):
+        t = [x for x in repo.resolve_call(mod, call) if isinstance(x[1], FuncNode)]
+        return t[0] if len(t) == 1 else None
+    for rc in rt_calls:
+        rt = target(pmod, rc)
+        if rt is None:
+            raise AnalysisError(f"{pq}: `{norm(rc)[:60]}` (the value stored as `.run_space`) does not resolve to one function of the package")
+        rb = _bind_args(rt[1], rc, skip_first=False)
+        for ic in insp_calls:
+            it = target(builder_mod, ic)
+            if not R.check(it is not None and it[1] is rt[1], r_pa, BUILDER, qualname_of(csid), f"parses the block with the function {pq} stores as .run_space",
+                           f"inspection parses the run-space block with `{norm(ic.func)}` while the runtime configuration parser stores the result of `{norm(rc.func)}` ({rel_p}:{rc.lineno}) as `.run_space`: the two sides hash the result of different functions", ic.lineno):
+                continue
+            ib = _bind_args(it[1], ic, skip_first=False)
+            if rb is None or ib is None:
+                raise AnalysisError(f"{qualname_of(rt[1])}: the parser calls `{norm(rc)[:50]}` / `{norm(ic)[:50]}` cannot be bound to its parameters")
+            # the block itself: the parameter inspection feeds from its own argument
+            csid_params = set(_params(csid_nf))
+            block_params = [p for p, v in ib.items() if _slice_names(csid_nf, v) & csid_params]
+            if len(block_params) != 1:
+                raise AnalysisError(f"{qualname_of(csid)}: which parameter of {qualname_of(rt[1])} receives the run-space block is not clear ({block_params})")
+            for p in [p for p in rb if p != block_params[0]]:
+                a, b2 = rb[p], ib[p]
+                same = isinstance(a, ast.Constant) and isinstance(b2, ast.Constant) and type(a.value) is type(b2.value) and a.value == b2.value
+                if same or _diagnostic_only(rt[1], p):
+                    R.ok(r_pa, rel_p, pq, f"{rt[1].name}(..., {p}=...) agrees with inspection")
+                    continue
+                passed_rt = any(k.arg == p for k in rc.keywords) or not isinstance(a, ast.Constant)
+                site = (rel_p, pq, rc) if passed_rt else (BUILDER, qualname_of(csid), ic)
+                R.violation(r_pa, site[0], site[1], norm(site[2])[:100],
+                            f"the runtime parses the run-space block with `{p}={norm(a)[:40]}` ({rel_p}:{rc.lineno}), inspection with `{p}={norm(b2)[:40]}` ({BUILDER}:{ic.lineno}), and `{p}` takes part in building the parsed value in {qualname_of(rt[1])}: for every block this option touches the two sides hash different representations - `inspect` prints another spec id than run_space_start carries",
+                            site[2].lineno)
 
 
 # ----------------------------------------------------------------------------------------- D2 launch bracket
@@ -982,6 +1080,128 @@ def _is_empty(e: Optional[ast.AST]) -> bool:
     if isinstance(e, (ast.List, ast.Tuple, ast.Set)):
         return not e.elts
     return isinstance(e, ast.Call) and call_name(e) in ("dict", "list", "tuple") and not e.args and not e.keywords
+
+
+def _unroll_literal_loops(nf: ast.AST) -> ast.AST:
+    """*nf* with every ``for <names> in <literal tuple/list>`` loop replaced by one copy of its body per element, the
+    loop variables substituted by the element's parts (``for k, v in (("a", a), ("b", b)): if v is not None: rec[k] = v``
+    becomes the two guarded stores it stands for).  Only where that is the same program: the sequence is a display (or
+    a local bound once to a display and never touched again) of names that are never rebound in the function and
+    constants, the body neither breaks / continues nor rebinds the loop variables, and the loop variables are not read
+    outside the loop.  *nf* itself (a shared, cached normal form) is left alone; a copy is returned when something
+    was unrolled."""
+    scoped: Set[int] = set()  # names that live in the scope of a comprehension (other variables than the function's locals)
+    for c in ast.walk(nf):
+        if isinstance(c, (ast.ListComp, ast.SetComp, ast.DictComp, ast.GeneratorExp)):
+            bound = {x.id for gen in c.generators for x in ast.walk(gen.target) if isinstance(x, ast.Name)}
+            scoped |= {id(x) for x in ast.walk(c) if isinstance(x, ast.Name) and x.id in bound}
+    stored: Dict[str, int] = {}
+    for n in ast.walk(nf):
+        if isinstance(n, ast.Name) and isinstance(n.ctx, (ast.Store, ast.Del)) and id(n) not in scoped:
+            stored[n.id] = stored.get(n.id, 0) + 1
+
+    def pure(e: ast.AST) -> bool:
+        return isinstance(e, ast.Constant) or (isinstance(e, ast.Name) and e.id not in stored)
+
+    def display(e: ast.AST) -> Optional[List[ast.AST]]:
+        if isinstance(e, (ast.Tuple, ast.List)) and not any(isinstance(x, ast.Starred) for x in e.elts):
+            return list(e.elts)
+        if isinstance(e, ast.Name) and stored.get(e.id) == 1:
+            vals = _assigned(nf, e.id)
+            if len(vals) == 1 and isinstance(vals[0], (ast.Tuple, ast.List)) and not mutation_sites(nf, {e.id}):
+                # read only as the sequence of loops (never handed on / compared / indexed)
+                if all(isinstance(_parent(x), ast.For) and _parent(x).iter is x for x in ast.walk(nf) if isinstance(x, ast.Name) and x.id == e.id and isinstance(x.ctx, ast.Load)):
+                    return display(vals[0])
+        return None
+
+    def plan(loop: ast.For) -> Optional[List[Dict[str, ast.AST]]]:
+        if loop.orelse or any(isinstance(x, (ast.Break, ast.Continue, ast.Yield, ast.YieldFrom) + FuncNode + (ast.Lambda,)) for st in loop.body for x in ast.walk(st)):
+            return None
+        elts = display(loop.iter)
+        if elts is None or len(elts) > 16:
+            return None
+        tg = loop.target
+        names = [tg.id] if isinstance(tg, ast.Name) else [x.id for x in tg.elts] if isinstance(tg, (ast.Tuple, ast.List)) and all(isinstance(x, ast.Name) for x in tg.elts) else None
+        if not names or len(set(names)) != len(names) or any(stored.get(nm) != 1 for nm in names):
+            return None
+        inside = {id(x) for x in ast.walk(loop)}
+        if any(isinstance(x, ast.Name) and x.id in names and id(x) not in inside and id(x) not in scoped for x in ast.walk(nf)):
+            return None
+        if any(isinstance(x, ast.Name) and x.id in names and id(x) in scoped for x in ast.walk(loop)):
+            return None  # a comprehension of the body has a variable of the same name
+        out: List[Dict[str, ast.AST]] = []
+        for e in elts:
+            if isinstance(tg, ast.Name):
+                if not pure(e):
+                    return None
+                out.append({tg.id: e})
+            else:
+                if not isinstance(e, (ast.Tuple, ast.List)) or len(e.elts) != len(names) or not all(pure(x) for x in e.elts):
+                    return None
+                out.append(dict(zip(names, e.elts)))
+        return out
+
+    todo = [(id(n), plan(n)) for n in walk_no_nested(nf) if isinstance(n, ast.For)]
+    plans = {k: p for k, p in todo if p is not None}
+    if not plans:
+        return nf
+    ids: Dict[int, int] = {}
+
+    def copy(node):  # clone that remembers which original each For came from
+        if isinstance(node, ast.AST):
+            new = node.__class__()
+            for f in node._fields:
+                if hasattr(node, f):
+                    setattr(new, f, copy(getattr(node, f)))
+            for a in node._attributes:
+                if hasattr(node, a):
+                    setattr(new, a, getattr(node, a))
+            if isinstance(node, ast.For):
+                ids[id(new)] = id(node)
+            return new
+        if isinstance(node, list):
+            return [copy(x) for x in node]
+        return node
+
+    new = copy(nf)
+
+    class Sub(ast.NodeTransformer):
+        def __init__(self, mapping):
+            self.mapping = mapping
+
+        def visit_Name(self, n):
+            return clone(self.mapping[n.id]) if isinstance(n.ctx, ast.Load) and n.id in self.mapping else n
+
+    def rewrite(block: List[ast.stmt]) -> None:
+        i = 0
+        while i < len(block):
+            st = block[i]
+            p = plans.get(ids.get(id(st), 0)) if isinstance(st, ast.For) else None
+            if p is not None:
+                repl: List[ast.stmt] = []
+                for mapping in p:
+                    repl.extend(Sub(mapping).visit(clone(b)) for b in st.body)
+                block[i:i + 1] = repl or [ast.copy_location(ast.Pass(), st)]
+                continue  # the copies may contain loops of their own: they were cloned without ids, left as they are
+            for f in ("body", "orelse", "finalbody"):
+                b = getattr(st, f, None)
+                if isinstance(b, list) and b and isinstance(b[0], ast.stmt):
+                    rewrite(b)
+            if isinstance(st, ast.Try):
+                for h in st.handlers:
+                    rewrite(h.body)
+            i += 1
+
+    rewrite(new.body)
+    ast.fix_missing_locations(new)
+    for par in ast.walk(new):
+        for child in ast.iter_child_nodes(par):
+            child._parent = par  # type: ignore[attr-defined]
+    new._parent = _parent(nf)  # type: ignore[attr-defined]
+    for a in ("_normal_of", "_inlined"):
+        if hasattr(nf, a):
+            setattr(new, a, getattr(nf, a))
+    return new
 
 
 def _resolve_bound(repo: Repo, mod, call: ast.Call) -> Optional[Tuple[object, ast.AST, Dict[str, ast.AST]]]:
@@ -1274,7 +1494,7 @@ def handover_rules(repo: Repo, R: Report) -> None:
         repo.module(mod.rel)
         for m in meths:
             qual = f"{cqn}.{m.name}"
-            nf = nfunc(repo, mod.rel, qual, loops=True)
+            nf = _unroll_literal_loops(nfunc(repo, mod.rel, qual, loops=True))  # `for k, v in ((key, param), ...): rec[k] = v` is the stores it stands for
             params = set(_params(nf))
             rec_names = {t.id for n in walk_no_nested(nf) if isinstance(n, (ast.Assign, ast.AnnAssign)) and n.value is not None
                          for t in _flat_store_targets(n) if isinstance(t, ast.Name)
@@ -1479,6 +1699,28 @@ def _bool_eval(f, env: dict) -> bool:
     return any(_bool_eval(x, env) for x in f[1])
 
 
+def _bool_sat(formulas: list) -> Optional[dict]:
+    """A truth assignment of the atoms under which every formula holds, or None."""
+    import itertools
+    atoms: list = []
+    for f in formulas:
+        _bool_atoms(f, atoms)
+    if len(atoms) > 12:
+        raise AnalysisError(f"lifecycle mode analysis: {len(atoms)} atoms in the mode tests")
+    for vals in itertools.product((True, False), repeat=len(atoms)):
+        env = dict(zip(atoms, vals))
+        if all(_bool_eval(f, env) for f in formulas):
+            return env
+    return None
+
+
+def _plain_configured_path(exprs: Tuple, incoming: frozenset, path_attrs: Set[str], me: Optional[str]) -> bool:
+    """The value described by a case of `cases(..)` is the configured output path itself: it reads exactly one attribute, one
+    that only __init__ stores, and travels through plain names only (nothing joined on, no other name taken)."""
+    return len(incoming) == 1 and set(incoming) <= set(path_attrs) and all(
+        isinstance(x, ast.Name) or (isinstance(x, ast.Attribute) and isinstance(x.value, ast.Name) and x.value.id == me) for x in exprs)
+
+
 def _mode_counterexample(alias_facts: list, dir_conjs: list) -> Optional[dict]:
     """A truth assignment of the atoms under which every fact guarding the alias holds and some directory-branch condition of
     the per-run opener holds too (None: the alias guard implies the per-run opener's single-file branch)."""
@@ -1501,6 +1743,7 @@ def _mode_counterexample(alias_facts: list, dir_conjs: list) -> Optional[dict]:
 def lifecycle_file_rules(repo: Repo, R: Report) -> None:
     r_lf = R.rule("C09-D5-lifecycle-file-identity", "in every trace driver that writes to files, the file run_space_end is written to is the file run_space_start of the same launch was written to, whatever happens to the handle in between (execute() flushes and closes the driver after every run): a path that contains a clock reading / random part / counter is computed only when no path is remembered for the launch, is remembered in driver state, and no method that runs between the two records resets that state", 1)
     r_ma = R.rule("C09-D5-lifecycle-mode-agreement", "wherever the run-space lifecycle handle is made the per-run handle (single-file mode), the tests guarding that statement imply, for the same configured output path, that the per-run opener takes its single-file branch (the configured path itself, no time-stamped name): decided on the truth table over {suffix non-empty, is_dir}; the lifecycle test may be stronger than the per-run test, never weaker", 1)
+    r_oh = R.rule("C09-D5-lifecycle-one-handle", "where the run-space lifecycle records go to the very file the per-run records go to (single-file mode: both openers open the configured path itself), they are written through the per-run handle, never through a second handle opened on the same path: two buffered handles on one file put the records into the file in the order of the flushes, not of the emission, so run_space_start lands behind the records of the first run it brackets (and a trace cut inside that run shows runs without their launch)", 1)
     R.assume(
         "C09-D5-lifecycle-file-identity: library calls other than the clock / random / uuid / temp-name / next() families are deterministic functions of their operands; the driver instance, its configured output path and (launch id, attempt, run_id) are the same for run_space_start and run_space_end of one launch; any public method of the driver other than on_run_space_start / on_run_space_end may run between the two records (flush() and close() do, after every run)",
         "C09-D5-lifecycle-file-identity: the per-run SER file is exempt - it is opened by pipeline_start and closed at the end of that run, all records of the run are written between that one open and that one close, so its (time-stamped) name is taken once per run; where the lifecycle records are written through the per-run handle only if the configured output path has a suffix (single-file mode), the file is the configured path itself - that the two mode tests agree is decided by C09-D5-lifecycle-mode-agreement; where they do not, or in any other mode, the opens of that handle are held to the rule",
@@ -1515,12 +1758,12 @@ def lifecycle_file_rules(repo: Repo, R: Report) -> None:
         if not any(_open_path_operand(mod, c) is not None for m in own.values() for c in calls_in(m)):
             continue  # keeps its records somewhere else than in files it opens
         found += 1
-        _lifecycle_file_identity(repo, R, r_lf, r_ma, mod, cqn, cls, own)
+        _lifecycle_file_identity(repo, R, r_lf, r_ma, mod, cqn, cls, own, r_oh)
     if not found:
         raise AnalysisError("no file-writing class implementing on_run_space_start / on_run_space_end found")
 
 
-def _lifecycle_file_identity(repo: Repo, R: Report, r_lf: str, r_ma: str, mod, cqn: str, cls: ast.ClassDef, own: Dict[str, ast.AST]) -> None:
+def _lifecycle_file_identity(repo: Repo, R: Report, r_lf: str, r_ma: str, mod, cqn: str, cls: ast.ClassDef, own: Dict[str, ast.AST], r_oh: Optional[str] = None) -> None:
     START, END = "on_run_space_start", "on_run_space_end"
 
     def self_of(fn: ast.AST) -> Optional[str]:
@@ -1790,8 +2033,35 @@ def _lifecycle_file_identity(repo: Repo, R: Report, r_lf: str, r_ma: str, mod, c
                 facts.update(a_run["mode_facts"]([i], path_attrs))
             dirs.append([f for f, _t in facts.values()])
             dir_texts.append(" and ".join(t for _f, t in facts.values()) or "always")
-        mode = {"handles": run_handles & {h for _p, _o, h in a_run["opens"] if h is not None}, "attrs": path_attrs, "dir": dirs, "dir_text": sorted(set(dir_texts))}
+        plain_run = [oc for p, oc, h in a_run["opens"] for at in rg.nodes_for(stmt_of(oc)) for exprs, _sites, incoming in a_run["cases"](p, at)
+                     if _plain_configured_path(exprs, incoming, path_attrs, a_run["me"])]
+        mode = {"handles": run_handles & {h for _p, _o, h in a_run["opens"] if h is not None}, "attrs": path_attrs, "dir": dirs, "dir_text": sorted(set(dir_texts)), "plain": plain_run}
     a_start, a_end = analyse(START, mode), analyse(END, mode)
+    # one file, one handle: a lifecycle open of the configured path itself, possible in a mode in which the per-run opener opens
+    # the configured path itself too, is a second handle on the file of the runs
+    if r_oh is not None:
+        if not a_start["opens"] and not a_end["opens"]:
+            R.ok(r_oh, mod.rel, a_start["qual"], "<no open(..) in the lifecycle methods>", "the lifecycle records are written through handles these methods never open")
+        for a in (a_start, a_end):
+            for p, oc, h in a["opens"]:
+                st = stmt_of(oc)
+                env = None
+                plain = False
+                for at in a["g"].nodes_for(st):
+                    for exprs, _sites, incoming in a["cases"](p, at):
+                        if mode is None or not mode["plain"] or not _plain_configured_path(exprs, incoming, mode["attrs"], a["me"]):
+                            continue
+                        plain = True
+                        facts = a["mode_facts"]([at], mode["attrs"])
+                        run_plain = ("not", ("or", [("and", list(conj)) for conj in mode["dir"]]))
+                        env = env or _bool_sat([f for f, _t in facts.values()] + [run_plain])
+                unbuffered = len(oc.args) >= 3 or kwarg(oc, "buffering") is not None
+                if env is not None and unbuffered:
+                    raise AnalysisError(f"{a['qual']}: `{norm(oc)[:60]}` opens the file of the runs a second time with an explicit buffering mode; whether the record order survives is not decided")
+                where = ", ".join(f"{k[1]}={'yes' if v else 'no'}" for k, v in (env or {}).items() if k[0] != "other")
+                R.check(env is None, r_oh, mod.rel, a["qual"], norm(st)[:100],
+                        f"the run-space lifecycle records are written through a handle of their own opened on the configured output path itself (`{norm(oc)[:60]}`), and for a configured path with {where or 'any shape'} the per-run opener (`{norm(mode['plain'][0])[:50]}`, line {mode['plain'][0].lineno}) opens that same path for the records of the runs: two buffered handles on one file - the records reach the file in flush order, run_space_start lands after the records of the first run of the launch it brackets",
+                        oc.lineno, what_ok=("the lifecycle file is not the configured path itself" if not plain else "never in a mode in which the per-run opener opens the configured path"))
     for a in (a_start, a_end):
         for h, st, texts, cex in a["agree"]:
             where = ", ".join(f"{k[1]}={'yes' if v else 'no'}" for k, v in (cex or {}).items() if k[0] != "other")
